@@ -219,7 +219,8 @@ func runC08(c *core.Ctx) core.Meta {
 	st3 := c.Rule("R08.3", "a work-item's wavefront is chosen by its in-group id divided by the wavefront size (a new wavefront starts when that quotient changes, since in partial work-groups ids are not contiguous), its lane bit is id modulo the wavefront size, and the wavefront's first flat id is quotient*size; the in-group id is z*SX*SY + y*SX + x, the inverse of the lane-id decomposition used by both register initialisations", 5)
 	if fn := c.MustFunc("R08.3", kernelsPkg, "gridBuilderImpl.formWavefronts"); fn != nil {
 		c.MarkAnalysed(fn)
-		g := core.BuildGraph(fn, 0, nil)
+		// helpers of the grid builder (a constructor for the wavefront) are expanded at their call sites
+		g := core.BuildGraph(fn, 2, func(cal *ssa.Function) bool { return cal.Pkg == fn.Pkg })
 		idExpr := ""
 		for _, n := range g.Nodes {
 			// the wavefront creation
@@ -233,6 +234,16 @@ func runC08(c *core.Ctx) core.Meta {
 							return 1
 						}
 						if op == token.EQL {
+							return -1
+						}
+					}
+					// the running form: ids come in increasing order, so `id >= end` with
+					// end = (id/64)*64 + 64 set whenever a wavefront is started is the same test
+					if strings.Contains(py, "/64)*64)+64)") && strings.Contains(px, ".IDX") {
+						if op == token.GEQ {
+							return 1
+						}
+						if op == token.LSS {
 							return -1
 						}
 					}
@@ -257,7 +268,7 @@ func runC08(c *core.Ctx) core.Meta {
 			}
 			if s, ok := storeToField(n.Instr, "Wavefront.FirstWiFlatID"); ok {
 				st3.Instances++
-				pv := prov.Of(s.Val)
+				pv := provThroughFrames(prov, n, s.Val)
 				ok2 := core.ProvMatch(regexp.MustCompile(`/64\)\*64\)$`), pv)
 				st3.Ob(ok2)
 				if !ok2 {
@@ -266,7 +277,9 @@ func runC08(c *core.Ctx) core.Meta {
 			}
 		}
 		st3.Instances++
-		okID := core.ProvMatch(regexp.MustCompile(`^\(\(\(.*\.IDZ\*.*\.SizeX\)\*.*\.SizeY\)\+\(.*\.IDY\*.*\.SizeX\)\)\+.*\.IDX\)$`), idExpr)
+		okID := core.ProvMatch(regexp.MustCompile(`^\(\(\(.*\.IDZ\*.*\.SizeX\)\*.*\.SizeY\)\+\(.*\.IDY\*.*\.SizeX\)\)\+.*\.IDX\)$`), idExpr) ||
+			// the slice pitch SizeX*SizeY formed first
+			core.ProvMatch(regexp.MustCompile(`^\(\(\(.*\.IDZ\*\(.*\.SizeX\*.*\.SizeY\)\)\+\(.*\.IDY\*.*\.SizeX\)\)\+.*\.IDX\)$`), idExpr)
 		st3.Ob(okID)
 		st3.Sample("formWavefronts: in-group id = %s", short(idExpr))
 		if !okID {
